@@ -414,6 +414,32 @@ class Inliner:
         setattr(st, holder, ast.copy_location(ast.UnaryOp(op=ast.Not(), operand=name), e) if neg else name)
         return rep
 
+    def hoist_arg(self, st: ast.stmt, caller_names: set[str], depth: int) -> list[ast.stmt] | None:
+        """`f(helper(...))` / `x = f(helper(...))` / `return f(helper(...))` with `f` a plain name / attribute chain and a
+        multi-statement helper as FIRST argument: evaluate the helper into a temporary first.  Looking up `f` has no
+        effect, so the helper call is the first thing the statement evaluates."""
+        v = st.value if isinstance(st, (ast.Expr, ast.Return, ast.Assign)) else None
+        if not isinstance(v, ast.Call) or not v.args or not _pure_chain(v.func) or not isinstance(v.args[0], ast.Call):
+            return None
+        if isinstance(st, ast.Assign) and not (len(st.targets) == 1 and isinstance(st.targets[0], ast.Name)):
+            return None
+        inner = v.args[0]
+        if self.resolve(inner) is None:
+            return None
+        fn, _ = self.resolve(inner)  # type: ignore[misc]
+        body = [s_ for s_ in fn.body if not _is_docstring(s_)]
+        if len(body) == 1 and isinstance(body[0], ast.Return):
+            return None  # expression-level inlining handles it
+        self.counter += 1
+        tmp = f"__arg{self.counter}"
+        asg = ast.copy_location(ast.Assign(targets=[ast.Name(id=tmp, ctx=ast.Store())], value=inner), st)
+        ast.fix_missing_locations(asg)
+        rep = self.inline_stmt(asg, caller_names | {tmp}, depth)
+        if rep is None:
+            return None
+        v.args[0] = ast.copy_location(ast.Name(id=tmp, ctx=ast.Load()), inner)
+        return rep
+
     def process_body(self, body: list[ast.stmt], caller_names: set[str], depth: int = 0) -> list[ast.stmt]:
         out: list[ast.stmt] = []
         for st in body:
@@ -422,6 +448,9 @@ class Inliner:
                 out.extend(rep)
                 continue
             pre = self.hoist_test(st, caller_names, depth)
+            if pre is not None:
+                out.extend(pre)
+            pre = self.hoist_arg(st, caller_names, depth)
             if pre is not None:
                 out.extend(pre)
             self.inline_exprs(st, caller_names)
